@@ -862,7 +862,9 @@ def series_strategy(
         .map(lambda x: x.rename(name))
         .map(partial(convert_dtype, col_dtype=pandera_dtype.type))
     )
-    if nullable:
+    # nulls are written over the generated values: a unique field would end up
+    # with repeated nulls, which validation counts as duplicates
+    if nullable and not unique:
         strategy = null_field_masks(strategy)
 
     def undefined_check_strategy(strategy, check):
@@ -963,7 +965,8 @@ def index_strategy(
 
     if name is not None:
         strategy = strategy.map(lambda index: index.rename(name))
-    if nullable:
+    # see series_strategy: no null mask over values that have to be unique
+    if nullable and not unique:
         strategy = null_field_masks(strategy)
 
     for check in checks if checks is not None else []:
@@ -1149,8 +1152,15 @@ def dataframe_strategy(
             )
             for col_name, col in expanded_columns.items()
         }
+        # columns that have to be unique are not masked with nulls: repeated
+        # nulls are duplicates
+        jointly_unique = set(unique or [])
         nullable_columns = {
-            col_name: col.nullable
+            col_name: (
+                col.nullable
+                and not col.unique
+                and col_name not in jointly_unique
+            )
             for col_name, col in expanded_columns.items()
         }
 
@@ -1263,7 +1273,9 @@ def multiindex_strategy(
         for i, index in enumerate(indexes)
     }
     nullable_index = {
-        index.name if index.name is not None else i: index.nullable
+        index.name if index.name is not None else i: (
+            index.nullable and not index.unique
+        )
         for i, index in enumerate(indexes)
     }
     strategy = pdst.data_frames(
